@@ -97,11 +97,9 @@ func concurrently(f sandbox.Entry) sandbox.Entry {
 		var mu sync.Mutex
 		var crashed any
 		start := make(chan struct{})
-		// short inputs decode in microseconds: the calls only overlap when they are repeated behind a common start
+		// The binary is built with the race detector (happens-before based: two calls that are not ordered by
+		// synchronisation are reported whether or not they overlap in time), so one call per goroutine is enough.
 		reps := 1
-		if len(in) <= 512 {
-			reps = 6
-		}
 		for g := 0; g < 2; g++ {
 			wg.Add(1)
 			go func() {
